@@ -1,4 +1,7 @@
+#[cfg(not(feature = "verif-hooks"))]
 use std::collections::HashMap;
+#[cfg(feature = "verif-hooks")]
+use crate::verif_hooks::HashMap;
 
 use instant::Duration;
 
